@@ -80,7 +80,7 @@ func runNonInteractive() int {
 	} else {
 		sourceBytes, err := ioutil.ReadFile(file)
 		if err != nil {
-			fmt.Println("ReadFile error:", err)
+			fmt.Println("ReadFile error:", oneLine(err))
 			return 2
 		}
 		source = string(sourceBytes)
@@ -88,11 +88,16 @@ func runNonInteractive() int {
 
 	_, err := vm.Execute(e, nil, source)
 	if err != nil {
-		fmt.Println("Execute error:", err)
+		fmt.Println("Execute error:", oneLine(err))
 		return 4
 	}
 
 	return 0
+}
+
+// oneLine is the text of err on one line: a diagnostic is one line of output
+func oneLine(err error) string {
+	return strings.NewReplacer("\n", "\\n", "\r", "\\r").Replace(err.Error())
 }
 
 func runInteractive() int {
